@@ -103,7 +103,7 @@ impl Check for C15 {
                 &mut modes[mi].pats[pi].rx
             };
             if kind == 1 {
-                let n = 1 + d.below(14);
+                let n = 1 + d.weighted(&[6, 6, 5, 4, 3, 2, 2, 1, 1, 1, 1, 1, 1, 1]);
                 let mut s = String::new();
                 for _ in 0..n {
                     let t: &str = TOKENS[d.below(TOKENS.len())];
